@@ -437,7 +437,7 @@ class Cfg:
         g("idw_b", [1, 2, 4, 8][t.choose(4, "idw_b")])
         g("seqw", [2, 1, 4][t.choose(3, "seqw")])
         g("seg", [8, 1, 2, 3, 5, 16, 64, 200, 1024, None][t.choose(10, "seg")])
-        g("mpl_sel", t.choose(6, "mpl_sel"))
+        g("mpl_sel", t.choose(8, "mpl_sel"))
         g("size_sel", t.weighted([4, 2, 2, 2, 2, 2, 3, 2, 1, 1], "size_sel"))
         g("dst_shape", t.weighted([4, 2, 2, 1], "dst_shape"))
         g("imm_nak", not bool(t.choose(2, "imm_nak")))
@@ -481,7 +481,9 @@ class Cfg:
         crc = 2 if self.crc else 0
         self.min_mpl = self.hdr_len + 1 + 16 + crc + 2  # NAK with one request is the largest fixed part
         # EOF: hdr + 1 + 1 + 4 + 4 (+ crc); FD: hdr + 4 + 1 (+crc); ACK: hdr + 3 (+crc); all smaller.
-        self.mpl = [2048, self.min_mpl, self.min_mpl + 1, self.min_mpl + 9, self.hdr_len + 64, 512][
+        # the last two sit on the boundary where exactly k segment requests fit a NAK PDU only if every optional
+        # field (PDU CRC) is accounted for: header + directive code + scope (8) + 2 x 8 (+ 0 or 1)
+        self.mpl = [2048, self.min_mpl, self.min_mpl + 1, self.min_mpl + 9, self.hdr_len + 64, 512, self.hdr_len + 25, self.hdr_len + 26][
             self.mpl_sel
         ]
         if self.mpl < self.min_mpl:
